@@ -289,4 +289,412 @@ theorem dot_spec {cs : List Char} {acc acc' : Acc}
       exact fracPost_digit hd (fracDigits_spec rest false _ acc' h hneg hexp)
     · simp [hd] at h
 
+def isDot (c : Char) : Bool := c == '.'
+
+/-- what the integer states establish about the underscore-free rest `t` of the text -/
+def IntPost (acc acc' : Acc) (t : List Char) : Prop :=
+  acc'.digits = acc.digits ++
+      digitsOf ((splitAtFirst isDot (splitAtFirst isE t).1).1 ++
+                (splitAtFirst isDot (splitAtFirst isE t).1).2.getD []) ∧
+  acc'.implicitExp = acc.implicitExp -
+      (((splitAtFirst isDot (splitAtFirst isE t).1).2.getD []).length : Int) ∧
+  ∀ E : Nat, acc'.explicitExp = some E →
+    expOf (splitAtFirst isE t).2 = (if acc'.expNeg then -(E : Int) else (E : Int))
+
+theorem intDigits_spec (cs : List Char) : ∀ (us : Bool) (acc acc' : Acc),
+    go (.intDigits us) acc cs = .ok (acc', []) → acc.expNeg = false →
+    acc.explicitExp = some 0 → IntPost acc acc' (F cs) := by
+  induction cs with
+  | nil =>
+    intro us acc acc' h hneg hexp
+    simp only [go, atEnd] at h
+    split at h
+    · cases h
+    · cases h
+      refine ⟨by simp [F, splitAtFirst, digitsOf], by simp [F, splitAtFirst], ?_⟩
+      intro E hE
+      rw [hexp] at hE; cases hE
+      simp [F, splitAtFirst, expOf, hneg]
+  | cons c cs ih =>
+    intro us acc acc' h hneg hexp
+    simp only [go, next] at h
+    by_cases hd : isDigit c = true
+    · simp only [hd, if_true] at h
+      by_cases hlz : (acc.digits.length == 1 && acc.leadingZero) = true
+      · simp [hlz] at h
+      · simp only [hlz, Bool.false_eq_true, if_false] at h
+        rw [F_cons_ne cs (isDigit_ne hd (by decide))]
+        obtain ⟨h1, h2, h3⟩ := ih false _ acc' h hneg hexp
+        unfold IntPost
+        rw [splitAtFirst_cons_false _ (isDigit_not_isE hd)]
+        have hnd : isDot c = false := isDigit_ne hd (by decide)
+        simp only [splitAtFirst_cons_false _ hnd]
+        refine ⟨?_, h2, h3⟩
+        rw [h1]; simp [digitsOf]
+    · have hd' : isDigit c = false := by simpa using hd
+      by_cases hc : c = '_'
+      · subst hc
+        cases us with
+        | true => simp [hd'] at h
+        | false =>
+          simp [hd'] at h
+          rw [F_cons_us]
+          exact ih true acc acc' h hneg hexp
+      · have hc' : (c == '_') = false := by simpa using hc
+        cases us with
+        | true => simp [hd', hc'] at h
+        | false =>
+          by_cases hdot : (c == '.') = true
+          · simp only [hd', hc', hdot, if_true] at h
+            simp only [Bool.false_eq_true, Bool.not_false, Bool.and_false, if_false] at h
+            have hc2 : c = '.' := by simpa using hdot
+            subst hc2
+            rw [F_cons_ne cs hc']
+            obtain ⟨h1, h2, h3⟩ := dot_spec h hneg hexp
+            unfold IntPost
+            rw [splitAtFirst_cons_false (p := isE) _ (by decide)]
+            simp only [splitAtFirst_cons_true (p := isDot) _ (show isDot '.' = true by decide)]
+            refine ⟨?_, ?_, h3⟩
+            · rw [h1]; simp
+            · rw [h2]; simp
+          · have hdot' : (c == '.') = false := by simpa using hdot
+            by_cases he : (c == 'e' || c == 'E') = true
+            · simp only [hd', hc', hdot', he, if_true] at h
+              simp only [Bool.false_eq_true, Bool.not_false, Bool.and_false, if_false] at h
+              have he' : isE c = true := he
+              rw [F_cons_ne cs hc']
+              obtain ⟨h1, h2, h3⟩ := exp_spec h hneg
+              unfold IntPost
+              rw [splitAtFirst_cons_true _ he']
+              refine ⟨?_, ?_, ?_⟩
+              · rw [h1]; simp [splitAtFirst, digitsOf]
+              · rw [h2]; simp [splitAtFirst]
+              · intro E hE; exact h3 E hE
+            · have he' : (c == 'e' || c == 'E') = false := by simpa using he
+              simp only [hd', hc', hdot', he'] at h
+              simp at h
+
+/-- `plainValue` in terms of the two splits. -/
+theorem plainValue_eq (t : List Char) :
+    plainValue t =
+      (ofDigits (digitsOf ((splitAtFirst isDot (splitAtFirst isE t).1).1 ++
+                           (splitAtFirst isDot (splitAtFirst isE t).1).2.getD [])),
+       expOf (splitAtFirst isE t).2 -
+         (((splitAtFirst isDot (splitAtFirst isE t).1).2.getD []).length : Int)) := by
+  unfold plainValue expOf
+  cases h1 : splitAtFirst isE t with
+  | mk mant ep =>
+    have : splitAtFirst (fun x => x == '.') mant = splitAtFirst isDot mant := rfl
+    simp only [this]
+    cases h2 : splitAtFirst isDot mant with
+    | mk ip fpo => cases ep <;> rfl
+
+theorem finish_ok {acc : Acc} {e : Int} (h : finish acc = .ok e) :
+    ∃ E : Nat, acc.explicitExp = some E ∧
+      e = acc.implicitExp + (if acc.expNeg then -(E : Int) else (E : Int)) := by
+  unfold finish at h
+  split at h
+  · cases h
+  · next E hE =>
+    by_cases hgt : E > I64_MAX
+    · simp [hgt] at h
+    · simp only [hgt, if_false] at h
+      refine ⟨E, hE, ?_⟩
+      cases hn : acc.expNeg
+      · simp only [hn, Bool.false_eq_true, if_false] at h ⊢
+        split at h
+        · cases h
+        · cases h; rfl
+      · simp only [hn, if_true] at h ⊢
+        split at h
+        · cases h
+        · cases h; omega
+
+/-- **lex_number_value**: when `lex_number` consumes the whole text, its `(digits, exp)`
+    is exactly the pair of the specification `literalValue`. -/
+theorem lexNumber_value {text : List Char} {ds : List Nat} {e : Int}
+    (h : lexNumber text = .ok (ds, e, [])) : (ofDigits ds, e) = literalValue text := by
+  cases text with
+  | nil => simp [lexNumber] at h
+  | cons c0 rest =>
+    simp only [lexNumber] at h
+    by_cases hd : isDigit c0 = true
+    · simp only [hd, Bool.not_true, Bool.false_eq_true, if_false] at h
+      split at h
+      · cases h
+      · next acc rest' hgo =>
+        split at h
+        · cases h
+        · next e' hfin =>
+          cases h
+          obtain ⟨h1, h2, h3⟩ := intDigits_spec rest false _ acc hgo rfl rfl
+          obtain ⟨E, hE, he⟩ := finish_ok hfin
+          have hF : (c0 :: rest).filter (· != '_') = c0 :: F rest :=
+            F_cons_ne rest (isDigit_ne hd (by decide))
+          unfold literalValue
+          rw [hF, plainValue_eq, splitAtFirst_cons_false _ (isDigit_not_isE hd)]
+          have hnd : isDot c0 = false := isDigit_ne hd (by decide)
+          simp only [splitAtFirst_cons_false _ hnd]
+          rw [h1, he, h2, h3 E hE]
+          simp only [digitsOf, List.map_cons, List.cons_append]
+          congr 1
+          omega
+    · simp [hd] at h
+
+/-! ### the analyzer's re-assembly `"{digits}e{exp}"` -/
+
+theorem digit_rt : ∀ d : Fin 10, digitVal (digitChar d.val) = d.val ∧ isDigit (digitChar d.val) = true := by
+  decide
+
+theorem digitVal_digitChar {d : Nat} (h : d < 10) : digitVal (digitChar d) = d :=
+  (digit_rt ⟨d, h⟩).1
+
+theorem isDigit_digitChar {d : Nat} (h : d < 10) : isDigit (digitChar d) = true :=
+  (digit_rt ⟨d, h⟩).2
+
+theorem natDigitsAux_spec : ∀ (fuel n : Nat) (acc : List Nat), n < fuel → (∀ d ∈ acc, d < 10) →
+    (∀ d ∈ natDigitsAux fuel n acc, d < 10) ∧ natDigitsAux fuel n acc ≠ [] ∧
+    ofDigits (natDigitsAux fuel n acc) = n * 10 ^ acc.length + ofDigits acc := by
+  intro fuel
+  induction fuel with
+  | zero => intro n acc h; omega
+  | succ fuel ih =>
+    intro n acc hn hacc
+    unfold natDigitsAux
+    by_cases h10 : n < 10
+    · simp only [h10, if_true]
+      refine ⟨?_, by simp, ofDigits_cons n acc⟩
+      intro d hd
+      rcases List.mem_cons.mp hd with rfl | hd
+      · exact h10
+      · exact hacc d hd
+    · simp only [h10, if_false]
+      have hacc' : ∀ d ∈ n % 10 :: acc, d < 10 := by
+        intro d hd
+        rcases List.mem_cons.mp hd with rfl | hd
+        · omega
+        · exact hacc d hd
+      obtain ⟨h1, h2, h3⟩ := ih (n / 10) (n % 10 :: acc) (by omega) hacc'
+      refine ⟨h1, h2, ?_⟩
+      rw [h3, ofDigits_cons, List.length_cons, Nat.pow_succ]
+      have : n = 10 * (n / 10) + n % 10 := (Nat.div_add_mod n 10).symm
+      generalize 10 ^ acc.length = P at *
+      generalize ofDigits acc = Q
+      generalize n / 10 = a at *
+      generalize n % 10 = b at *
+      subst this
+      have e1 : a * (P * 10) = 10 * a * P := by
+        rw [Nat.mul_comm P 10, ← Nat.mul_assoc, Nat.mul_comm a 10]
+      rw [e1, Nat.add_mul, Nat.add_assoc]
+
+theorem natDigits_spec (n : Nat) :
+    (∀ d ∈ natDigits n, d < 10) ∧ natDigits n ≠ [] ∧ ofDigits (natDigits n) = n := by
+  obtain ⟨h1, h2, h3⟩ := natDigitsAux_spec (n + 1) n [] (by omega) (by simp)
+  refine ⟨h1, h2, ?_⟩
+  unfold natDigits
+  rw [h3]; simp [ofDigits]
+
+theorem splitAtFirst_none {p : Char → Bool} : ∀ (l : List Char), (∀ c ∈ l, p c = false) →
+    splitAtFirst p l = (l, none) := by
+  intro l
+  induction l with
+  | nil => intro _; rfl
+  | cons c l ih =>
+    intro h
+    rw [splitAtFirst_cons_false l (h c (by simp)), ih (fun x hx => h x (by simp [hx]))]
+
+theorem splitAtFirst_append {p : Char → Bool} : ∀ (l : List Char) (c : Char) (r : List Char),
+    (∀ x ∈ l, p x = false) → p c = true → splitAtFirst p (l ++ c :: r) = (l, some r) := by
+  intro l
+  induction l with
+  | nil => intro c r _ hc; exact splitAtFirst_cons_true r hc
+  | cons x l ih =>
+    intro c r h hc
+    rw [List.cons_append, splitAtFirst_cons_false _ (h x (by simp)),
+      ih c r (fun y hy => h y (by simp [hy])) hc]
+
+theorem digitsOf_map_digitChar : ∀ (ds : List Nat), (∀ d ∈ ds, d < 10) →
+    digitsOf (ds.map digitChar) = ds := by
+  intro ds
+  induction ds with
+  | nil => intro _; rfl
+  | cons d ds ih =>
+    intro h
+    simp only [digitsOf, List.map_cons]
+    rw [digitVal_digitChar (h d (by simp))]
+    congr 1
+    exact ih (fun x hx => h x (by simp [hx]))
+
+theorem allDigits_map_digitChar (ds : List Nat) (h : ∀ d ∈ ds, d < 10) :
+    allDigits (ds.map digitChar) = true := by
+  unfold allDigits
+  rw [List.all_eq_true]
+  intro c hc
+  obtain ⟨d, hd, rfl⟩ := List.mem_map.mp hc
+  exact isDigit_digitChar (h d hd)
+
+theorem map_digitChar_prop (ds : List Nat) (h : ∀ d ∈ ds, d < 10) :
+    ∀ c ∈ ds.map digitChar, isDigit c = true := by
+  intro c hc
+  obtain ⟨d, hd, rfl⟩ := List.mem_map.mp hc
+  exact isDigit_digitChar (h d hd)
+
+theorem sciValue_digit {c : Char} (t : List Char) (hd : isDigit c = true) :
+    sciValue (c :: t) =
+      if sciShapeOk (c :: t) then some (false, (plainValue (c :: t)).1, (plainValue (c :: t)).2)
+      else none := by
+  have h1 : c ≠ '-' := by intro e; subst e; revert hd; decide
+  have h2 : c ≠ '+' := by intro e; subst e; revert hd; decide
+  unfold sciValue
+  split
+  · next heq => cases heq; exact absurd rfl h1
+  · next heq => cases heq; exact absurd rfl h2
+  · next r _ _ heq => cases heq; rfl
+
+/-- The exponent part printed by `format!("{}", exp)` for an `i64`. -/
+def expText (e : Int) : List Char :=
+  (if e < 0 then ['-'] else []) ++ (natDigits e.natAbs).map digitChar
+
+theorem expText_value (e : Int) : expPartValue (expText e) = e := by
+  obtain ⟨h1, h2, h3⟩ := natDigits_spec e.natAbs
+  unfold expText
+  by_cases hneg : e < 0
+  · simp only [hneg, if_true, List.cons_append, List.nil_append, expPartValue]
+    rw [digitsOf_map_digitChar _ h1, h3]; omega
+  · simp only [hneg, if_false, List.nil_append]
+    cases hN : natDigits e.natAbs with
+    | nil => exact absurd hN h2
+    | cons n ns =>
+      rw [List.map_cons, expPartValue_digit _ (isDigit_digitChar (h1 n (by simp [hN]))),
+        ← List.map_cons, ← hN, digitsOf_map_digitChar _ h1, h3]
+      omega
+
+theorem expText_shape (e : Int) :
+    (match some (expText e) with
+     | none => true
+     | some ('-' :: ds) => !ds.isEmpty && allDigits ds
+     | some ('+' :: ds) => !ds.isEmpty && allDigits ds
+     | some ds => !ds.isEmpty && allDigits ds) = true := by
+  obtain ⟨h1, h2, h3⟩ := natDigits_spec e.natAbs
+  have hall := allDigits_map_digitChar _ h1
+  have hne : ((natDigits e.natAbs).map digitChar).isEmpty = false := by
+    cases hN : natDigits e.natAbs with
+    | nil => exact absurd hN h2
+    | cons n ns => rfl
+  unfold expText
+  by_cases hneg : e < 0
+  · simp only [hneg, if_true, List.cons_append, List.nil_append]
+    rw [hne, hall]; rfl
+  · simp only [hneg, if_false, List.nil_append]
+    cases hN : natDigits e.natAbs with
+    | nil => exact absurd hN h2
+    | cons n ns =>
+      have hd : isDigit (digitChar n) = true := isDigit_digitChar (h1 n (by simp [hN]))
+      have hm : digitChar n ≠ '-' := by intro e; rw [e] at hd; revert hd; decide
+      have hp : digitChar n ≠ '+' := by intro e; rw [e] at hd; revert hd; decide
+      rw [hN] at hall
+      simp only [List.map_cons] at hall ⊢
+      split
+      · next heq => cases heq
+      · next heq => cases heq; exact absurd rfl hm
+      · next heq => cases heq; exact absurd rfl hp
+      · next ds' _ _ _ heq => cases heq; rw [hall]; rfl
+
+theorem reassemble_eq (ds : List Nat) (e : Int) :
+    reassemble ds e = ds.map digitChar ++ 'e' :: expText e := by
+  unfold reassemble expText
+  simp [List.append_assoc]
+
+/-- **re-assembly**: the text `"{digits}e{exp}"` that the analyzer hands to
+    `str::parse::<f64>` denotes the same `(n, e)` as the token. -/
+theorem reassemble_value (ds : List Nat) (e : Int) (hne : ds ≠ []) (hds : ∀ d ∈ ds, d < 10) :
+    sciValue (reassemble ds e) = some (false, ofDigits ds, e) := by
+  rw [reassemble_eq]
+  have hL := map_digitChar_prop ds hds
+  have hsplitE : splitAtFirst isE (ds.map digitChar ++ 'e' :: expText e)
+      = (ds.map digitChar, some (expText e)) :=
+    splitAtFirst_append _ _ _ (fun x hx => isDigit_not_isE (hL x hx)) (by decide)
+  have hsplitD : splitAtFirst (fun x => x == '.') (ds.map digitChar) = (ds.map digitChar, none) :=
+    splitAtFirst_none _ (fun x hx => isDigit_ne (hL x hx) (by decide))
+  have hshape : sciShapeOk (ds.map digitChar ++ 'e' :: expText e) = true := by
+    unfold sciShapeOk
+    simp only [hsplitE, hsplitD]
+    have hne' : (ds.map digitChar).isEmpty = false := by
+      cases ds with
+      | nil => exact absurd rfl hne
+      | cons d ds => rfl
+    rw [hne', allDigits_map_digitChar _ hds, expText_shape]; rfl
+  have hval : plainValue (ds.map digitChar ++ 'e' :: expText e) = (ofDigits ds, e) := by
+    unfold plainValue
+    simp only [hsplitE, hsplitD, Option.getD_none, List.append_nil, List.length_nil]
+    rw [digitsOf_map_digitChar _ hds, expText_value]; simp
+  cases ds with
+  | nil => exact absurd rfl hne
+  | cons d ds' =>
+    simp only [List.map_cons, List.cons_append] at hshape hval ⊢
+    rw [sciValue_digit _ (isDigit_digitChar (hds d (by simp))), hshape, hval]
+    rfl
+
+/-- The digits produced by `lex_number` are decimal digits and there is at least one. -/
+theorem go_digits (cs : List Char) : ∀ (st : St) (acc acc' : Acc) (rest : List Char),
+    go st acc cs = .ok (acc', rest) → (∀ d ∈ acc.digits, d < 10) → acc.digits ≠ [] →
+    (∀ d ∈ acc'.digits, d < 10) ∧ acc'.digits ≠ [] := by
+  induction cs with
+  | nil =>
+    intro st acc acc' rest h h1 h2
+    simp only [go] at h
+    split at h
+    · cases h
+    · cases h; exact ⟨h1, h2⟩
+  | cons c cs ih =>
+    intro st acc acc' rest h h1 h2
+    simp only [go] at h
+    split at h
+    · next st' acc1 hn =>
+      have key : (∀ d ∈ acc1.digits, d < 10) ∧ acc1.digits ≠ [] := by
+        have hdv : isDigit c = true → digitVal c < 10 := by
+          intro hd
+          unfold isDigit at hd; unfold digitVal
+          simp only [Bool.and_eq_true, decide_eq_true_eq] at hd; omega
+        have happ : isDigit c = true →
+            (∀ d ∈ acc.digits ++ [digitVal c], d < 10) ∧ acc.digits ++ [digitVal c] ≠ [] := by
+          intro hd
+          refine ⟨?_, by simp⟩
+          intro d hmem
+          rcases List.mem_append.mp hmem with hm | hm
+          · exact h1 d hm
+          · simp only [List.mem_singleton] at hm; subst hm; exact hdv hd
+        unfold next at hn
+        cases st <;> simp only at hn <;>
+          (repeat' split at hn) <;>
+          first
+            | (cases hn; exact ⟨h1, h2⟩)
+            | (cases hn; rename_i hd; exact happ hd)
+            | (cases hn; rename_i hd _; exact happ hd)
+            | cases hn
+      exact ih st' acc1 acc' rest h key.1 key.2
+    · cases h; exact ⟨h1, h2⟩
+    · cases h
+
+theorem lexNumber_digits {text : List Char} {ds : List Nat} {e : Int} {rest : List Char}
+    (h : lexNumber text = .ok (ds, e, rest)) : (∀ d ∈ ds, d < 10) ∧ ds ≠ [] := by
+  cases text with
+  | nil => simp [lexNumber] at h
+  | cons c0 cs =>
+    simp only [lexNumber] at h
+    by_cases hd : isDigit c0 = true
+    · simp only [hd, Bool.not_true, Bool.false_eq_true, if_false] at h
+      split at h
+      · cases h
+      · next acc rest' hgo =>
+        split at h
+        · cases h
+        · cases h
+          refine go_digits cs _ _ acc rest' hgo ?_ (by simp)
+          intro d hmem
+          simp only [List.mem_singleton] at hmem; subst hmem
+          unfold isDigit at hd; unfold digitVal
+          simp only [Bool.and_eq_true, decide_eq_true_eq] at hd; omega
+    · simp [hd] at h
+
 end Rsj.Dec
